@@ -307,7 +307,7 @@ def uncommitted(cx):
     cx.check(bool(bl), "leader-reset", "becoming leader zeroes the uncommitted size")
 
 
-@obligation("FLOW.transitions", ["C10", "C13", "C15"], floor=5, kind="effect shape (object-flow fragments)",
+@obligation("FLOW.transitions", ["C04", "C10", "C13", "C15"], floor=5, kind="effect shape (object-flow fragments)",
             why="a progress that keeps a stale Snapshot/paused state across a reset or transition is never sent anything again")
 def transitions(cx):
     from ..templates import fragment
